@@ -24,7 +24,7 @@ MANIFEST = {
     'note': 'EST_IDX_NA = 0 doubles as "no link" and as the index of the first fake node; aggregate pushes of the start nodes are therefore not paired.',
 }
 EXPLANATION = 'Reciprocal link-store pairing and seed / duration / propagation terms of the estimated-time network construction.'
-RULES = ['C15-1.reciprocal', 'C15-2.seed', 'C15-3.duration', 'C15-4.propagation', 'C15-5.origins', 'C15-6.events']
+RULES = ['C15-1.reciprocal', 'C15-2.seed', 'C15-3.duration', 'C15-4.propagation', 'C15-5.origins', 'C15-6.events', 'C15-7.options']
 ASSUMPTIONS = []
 
 
@@ -95,6 +95,7 @@ def link_events(an, root):
 def run(ctx):
     reciprocal(ctx)
     events(ctx)
+    options(ctx)
     seeds(ctx)
     duration(ctx)
     propagation(ctx)
@@ -352,3 +353,52 @@ def events(ctx):
         ok = ok and ib is not None and if_ is not None and len(lb) == 1 and len(lf) == 1 and simp_idx(ib) == lb[0] and simp_idx(if_) == lf[0]
     ctx.check(ok, R, 'event link', 'tail boundary first -> Clear event of the link the tail leaves; otherwise Arrive event of the link whose start the front passes',
               'link_event = %s' % (show(le, an.names)[:300] if le is not None else None), w)
+
+
+def options(ctx):
+    """C15-7.options: the set of links a route may use is collected backwards from the destinations: every link taken off the
+    work list is recorded once, and — unless it is an origin — BOTH of its predecessor references (primary and alternate) are
+    put on the work list when real; a fake link in the set and "no origin reached" are error values"""
+    R = 'C15-7.options'
+    b = fn(ctx, 'get_link_idx_options')
+    if b is None:
+        ctx.unproved(R, 'get_link_idx_options', 'anchor not found'); return
+    an = analysis_or_fail(ctx, R, b)
+    if an is None:
+        return
+    w = ctx.where(b)
+    links = ('obj', b.params[2][0])
+    pushes = [c for c in an.calls if re.sub(r'::<.*?>', '', c.callee).endswith('Vec::push') or re.sub(r'::<.*?>', '', c.callee).endswith('::push')]
+    pops = [c for c in an.calls if re.sub(r'::<.*?>', '', c.callee).endswith('::pop')]
+    if len(pops) != 1 or pops[0].result is None:
+        ctx.unproved(R, 'get_link_idx_options', 'expected one pop() of the work list, found %d' % len(pops), w); return
+    popped = None
+    seen = {}
+    for c in pushes:
+        v = c.argvals[1] if len(c.argvals) > 1 else None
+        if v is None:
+            continue
+        for fld in ('idx_prev', 'idx_prev_alt'):
+            refs = [x for x in walk(v) if x[0] == 'pre' and x[1][0] == links and x[1][-1] == ('f', fld)]
+            if refs and fld not in seen:
+                seen[fld] = (c, refs[0])
+    for fld, txt in (('idx_prev', 'primary'), ('idx_prev_alt', 'alternate')):
+        if fld not in seen:
+            ctx.bad(R, 'get_link_idx_options|' + fld, 'the %s predecessor of a processed link is never put on the work list: routes through it are not considered' % txt, w); continue
+        c, ref = seen[fld]
+        # of the link just popped
+        of_popped = any(y[0] == 'uf' and y[1].endswith('::pop') for y in walk(ref[1][1][1])) if ref[1][1][0] == 'idx' else False
+        # only real references; only when the popped link was not an origin; not otherwise conditioned
+        conds = [show(cnd, an.names) for cnd, o in c.pc]
+        extra = [x for x in conds if not ('is_fake' in x or 'contains' in x or 'maybe(pos(' in x or re.search(r'L\[bb\d+:_\d+\] == L\[bb\d+:_\d+\]', x) or 'pop(' in x[:30])]
+        ctx.check(of_popped and not extra, R, 'get_link_idx_options|' + fld, 'the %s predecessor of the link just taken off the work list is added whenever it is real and the link is not an origin' % txt,
+                  'pushed %s under %s' % (show(c.argvals[1], an.names)[:120], extra[:3]), ctx.where(b, c.span))
+    ins = [c for c in an.calls if re.sub(r'::<.*?>', '', c.callee).endswith('::insert') and 'HashSet' in c.callee]
+    ok = len(ins) == 1 and any(y[0] == 'uf' and y[1].endswith('::pop') for y in walk(ins[0].argvals[1])) and any('contains' in show(cnd, an.names) and o == '0' for cnd, o in ins[0].pc)
+    ctx.check(ok, R, 'get_link_idx_options|recorded', 'every link taken off the work list is recorded in the option set (once)', '%d insert calls' % len(ins), w)
+    gs = [show(g.holds_term(), an.names) for g in an.guards]
+    ctx.check(any('contains' in g_ and 'LinkIdx{idx: 0}' in g_ and g_.startswith('!') for g_ in gs), R, 'get_link_idx_options|fake', 'a fake link in the option set is an error value', 'guards: %s' % gs[:4], w)
+    ctx.check(any(re.fullmatch(r'\(L\[bb\d+:_\d+\] != 0\)', g_) for g_ in gs), R, 'get_link_idx_options|no origin', 'reaching no origin is an error value', 'guards: %s' % gs[:4], w)
+    r = an.ret()
+    ok = r[0] == 'ok' and r[1][0] == 'tuple' and r[1][1][0] == 'loopvar'
+    ctx.check(ok, R, 'get_link_idx_options|result', 'the returned set is the set built by the search', 'returns %s' % show(r, an.names)[:120], w)
